@@ -1,3 +1,176 @@
-import Tpp.Model.Screen
+import Tpp.Lemmas.DrawFrame
+/-!
+C03 – after `screen.draw(canvas)` the terminal displays exactly that canvas.
+
+Frame protocol (what `terminal::set_size` documents and the screen fixture follows): the terminal has the
+canvas's size; when the canvas size changes the terminal is resized and the application declares the new
+size (`Ev.resize`: the terminal's new contents, cursor, saved position and pending flag are its own choice
+and universally quantified).  `Shows vt c`: every cell of the visible grid equals `cellOf` of the canvas
+element (glyph text, character set and all attributes).
+
+Proved for terminals that defer the wrap or do not wrap, and for immediate-wrap terminals as long as the
+bottom-right cell is not transmitted; for an immediate-wrap terminal and a changed bottom-right cell the
+statement is FALSE of the code (the terminal scrolls) – `C03_immediate_counterexample`, known finding.
+-/
 namespace Tpp.Props.C03
+open Tpp
+
+/-- a frame: the canvas, and – used only when its size differs from the previous frame's – what the
+    terminal chooses to contain after being resized -/
+structure Frame where
+  canvas : Canvas
+  cells : Bool → Grid := fun _ _ _ => Cell.blank
+  cx : Nat := 0
+  cy : Nat := 0
+  saved : Option (Nat × Nat) := none
+  pending : Bool := false
+
+structure World where
+  s : TermState
+  vt : VT
+  scr : ScreenState
+
+/-- resize (terminal and declaration) when the canvas size changed, then `screen.draw` -/
+def runFrame (beh : Behaviour) (wd : World) (f : Frame) : World :=
+  let st := if f.canvas.size ≠ wd.scr.last.size
+    then Sys.step beh (wd.s, wd.vt) (.resize f.canvas.size.width.toNat f.canvas.size.height.toNat f.cells f.cx f.cy f.saved f.pending)
+    else (wd.s, wd.vt)
+  let r := drawRun beh wd.scr f.canvas st.1
+  { s := r.1, vt := st.2.feedAll r.2, scr := (Screen.draw wd.scr f.canvas).1 }
+
+/-- belief and terminal agree, the screen's remembered frame has the declared size, and the terminal shows it -/
+structure Inv (wd : World) : Prop where
+  agree : Agree wd.s wd.vt
+  size : wd.scr.last.size = wd.s.size
+  shows : Shows wd.vt wd.scr.last
+
+/-- the condition under which a frame can be drawn without the terminal scrolling -/
+def NoScroll (wd : World) (f : Frame) : Prop :=
+  wd.vt.wrap ≠ .immediate ∨
+    changedCell (Screen.base wd.scr f.canvas) f.canvas (f.canvas.size.width - 1, f.canvas.size.height - 1) = false
+
+def FrameWF (f : Frame) : Prop := f.canvas.cellsWF ∧ 0 ≤ f.canvas.size.width ∧ 0 ≤ f.canvas.size.height
+
+/-- **one draw**: from a state satisfying the invariant – or, for a frame that changes the size, from ANY
+    state in which merely the rendition half of the agreement holds (a fresh `terminal` and an unknown
+    terminal) – after the draw the terminal displays exactly the canvas, and the invariant holds again -/
+theorem C03_draw_converges (beh : Behaviour) (wd : World) (f : Frame) (hf : FrameWF f) (hns : NoScroll wd f)
+    (h : Inv wd ∨ (AgreeRend wd.s wd.vt ∧ f.canvas.size ≠ wd.scr.last.size)) :
+    Inv (runFrame beh wd f) ∧ Shows (runFrame beh wd f).vt f.canvas := by
+  obtain ⟨hwf, hw0, hh0⟩ := hf
+  by_cases hsz : f.canvas.size ≠ wd.scr.last.size
+  · -- size change: resize event first
+    have hAr : AgreeRend wd.s wd.vt := by
+      rcases h with h | h
+      · exact h.agree.1
+      · exact h.1
+    have hA1 := agree_resize_fresh beh wd.s wd.vt hAr f.canvas.size.width.toNat f.canvas.size.height.toNat
+      f.cells f.cx f.cy f.saved f.pending
+    generalize hst : Sys.step beh (wd.s, wd.vt) (.resize f.canvas.size.width.toNat f.canvas.size.height.toNat f.cells f.cx f.cy f.saved f.pending) = st at *
+    have hsize : f.canvas.size = st.1.size := by
+      rw [← hst]
+      show f.canvas.size = ⟨(f.canvas.size.width.toNat : Int), (f.canvas.size.height.toNat : Int)⟩
+      cases hc : f.canvas.size with
+      | mk w h => rw [hc] at hw0 hh0; simp at hw0 hh0 ⊢; omega
+    have hwrap : st.2.wrap = wd.vt.wrap := by rw [← hst]; rfl
+    obtain ⟨d1, d2, _, d4⟩ := draw_frame beh wd.scr f.canvas st.1 st.2 hA1 hsize hwf (fun hc => absurd hc hsz)
+    have hshows := d4 (by
+      rcases hns with hn | hn
+      · exact Or.inl (by rw [hwrap]; exact hn)
+      · exact Or.inr hn)
+    have hrf : runFrame beh wd f = ⟨(drawRun beh wd.scr f.canvas st.1).1,
+        st.2.feedAll (drawRun beh wd.scr f.canvas st.1).2, ⟨f.canvas⟩⟩ := by
+      simp only [runFrame, if_pos hsz, hst, Screen.draw]
+    rw [hrf]
+    exact ⟨⟨d1, by simp [d2, hsize], hshows⟩, hshows⟩
+  · -- same size
+    have hsz' : f.canvas.size = wd.scr.last.size := by
+      cases hd : decide (f.canvas.size = wd.scr.last.size) with
+      | true => exact of_decide_eq_true hd
+      | false => exact absurd (of_decide_eq_false hd) hsz
+    have hI : Inv wd := by
+      rcases h with h | h
+      · exact h
+      · exact absurd hsz' h.2
+    have hsize : f.canvas.size = wd.s.size := by rw [hsz', hI.size]
+    obtain ⟨d1, d2, _, d4⟩ := draw_frame beh wd.scr f.canvas wd.s wd.vt hI.agree hsize hwf (fun _ => hI.shows)
+    have hshows := d4 hns
+    have hrf : runFrame beh wd f = ⟨(drawRun beh wd.scr f.canvas wd.s).1,
+        wd.vt.feedAll (drawRun beh wd.scr f.canvas wd.s).2, ⟨f.canvas⟩⟩ := by
+      simp only [runFrame, if_neg hsz, Screen.draw]
+    rw [hrf]
+    exact ⟨⟨d1, by simp [d2, hsize], hshows⟩, hshows⟩
+
+/-- every frame of a sequence is drawable in the state it meets -/
+def FramesOK (beh : Behaviour) : World → List Frame → Prop
+  | _, [] => True
+  | wd, f :: fs => FrameWF f ∧ NoScroll wd f ∧ FramesOK beh (runFrame beh wd f) fs
+
+def runFrames (beh : Behaviour) (wd : World) (fs : List Frame) : World := fs.foldl (runFrame beh) wd
+
+/-- **sequences of canvases** (arbitrary contents, arbitrary edits between frames, size changes with
+    arbitrary terminal-side effects): after every draw the terminal displays the canvas just drawn.
+    `_partial`: the hypothesis `NoScroll` (inside `FramesOK`) excludes immediate-wrap terminals receiving
+    the bottom-right cell – where the full statement is false (`C03_immediate_counterexample`). -/
+theorem C03_frames_partial (beh : Behaviour) (fs : List Frame) :
+    ∀ (wd : World), Inv wd → FramesOK beh wd fs →
+      ∀ k f, fs[k]? = some f → Shows (runFrames beh wd (fs.take (k + 1))).vt f.canvas := by
+  induction fs with
+  | nil => intro wd _ _ k f hk; simp at hk
+  | cons f0 fs ih =>
+    intro wd hI hok k f hk
+    obtain ⟨h1, h2, h3⟩ := hok
+    obtain ⟨hI1, hs1⟩ := C03_draw_converges beh wd f0 h1 h2 (Or.inl hI)
+    cases k with
+    | zero =>
+      simp at hk; subst hk
+      simpa [runFrames] using hs1
+    | succ k =>
+      have := ih (runFrame beh wd f0) hI1 h3 k f (by simpa using hk)
+      simpa [runFrames] using this
+
+/-- the very first draw: a fresh `terminal`/`screen` pair and a terminal in ANY unknown state (rendition,
+    contents, cursor, modes), first canvas non-empty -/
+theorem C03_first_draw (beh : Behaviour) (vt0 : VT) (hu : vt0.Unknown) (f : Frame) (hf : FrameWF f)
+    (hne : f.canvas.size ≠ (Canvas.new ⟨0, 0⟩).size) (hns : NoScroll ⟨{}, vt0, {}⟩ f) :
+    Shows (runFrame beh ⟨{}, vt0, {}⟩ f).vt f.canvas ∧ Inv (runFrame beh ⟨{}, vt0, {}⟩ f) := by
+  have := C03_draw_converges beh ⟨{}, vt0, {}⟩ f hf hns (Or.inr ⟨agreeRend_init vt0 hu, hne⟩)
+  exact ⟨this.2, this.1⟩
+
+/-- the full statement, without the no-scroll hypothesis -/
+def C03_full : Prop :=
+  ∀ (beh : Behaviour) (vt0 : VT), vt0.Unknown → ∀ (f : Frame), FrameWF f → f.canvas.size ≠ (Canvas.new ⟨0, 0⟩).size →
+    Shows (runFrame beh ⟨{}, vt0, {}⟩ f).vt f.canvas
+
+/-- on a terminal that wraps immediately, a glyph printed into the bottom-right cell scrolls the display:
+    the cell shows a blank instead of the glyph -/
+theorem C03_immediate_scrolls (vt : VT) (bs : List Byte) (hw : vt.wrap = .immediate) (hp : vt.pending = false)
+    (hx : vt.cx + 1 = vt.w) (hy : vt.cy + 1 = vt.h) :
+    ((vt.print bs).cell vt.cx vt.cy).bytes = [0x20] := by
+  have hx' : ¬ (vt.cx + 1 < vt.w) := by omega
+  have hy' : ¬ (vt.cy + 1 < vt.h) := by omega
+  simp only [VT.print, VT.resolvePending, hp, Bool.false_eq_true, if_false, VT.place, VT.advance, hx', hw,
+    VT.newline, hy', VT.scrollUp, VT.cell]
+  simp only [if_true]
+  cases vt.eraseMode <;> simp [VT.erasedCell, Cell.blank]
+
+/-- 1x1 immediate-wrap terminal, canvas with one non-blank cell -/
+def witnessVT : VT :=
+  { w := 1, h := 1, wrap := .immediate, eraseMode := .plain, cx := 0, cy := 0, pending := false, rend := {},
+    g0 := .usAscii, utf8 := false, cursorVisible := true, mouse1000 := false, mouse1003 := false, alt := false,
+    title := [], saved := none, ps := .ground, malformed := false, log := [], cells := fun _ _ _ => Cell.blank }
+def witnessFrame : Frame := { canvas := (Canvas.new ⟨1, 1⟩).set 0 0 { glyph := { b0 := 0x41 } } }
+
+/-- the full statement is false of the code: the witness draw leaves a blank where the canvas has `A` -/
+theorem C03_immediate_counterexample : ¬ C03_full := by
+  intro h
+  have hs := h {} witnessVT ⟨rfl, rfl, rfl, rfl⟩ witnessFrame
+    ⟨by intro x y hx0 hx hy0 hy
+        have : x = 0 := by simp [witnessFrame, Canvas.set, Canvas.new] at hx; omega
+        have : y = 0 := by simp [witnessFrame, Canvas.set, Canvas.new] at hy; omega
+        subst_vars; decide, by decide, by decide⟩ (by decide)
+  have := hs 0 0 (by decide) (by decide)
+  revert this
+  decide
+
 end Tpp.Props.C03
